@@ -31,7 +31,7 @@ func init() {
 				r.Cov["traces_validated_against_impl"] = m.Counts["histories"]
 				r.Cov["evaluations"] = m.Counts["ldap_calls"]
 				r.Cov["distinct_nontrivial"] = len(m.Outc)
-				r.Cov["rule"] = "state = operation history (Add / Modify with one or two changes / Delete / Bind / SetUsers / SetGroups / SetControls / SetAllowAnonymousBind over a pool of 5 user DNs incl. a case variant and a non-ASCII one, 2 group DNs, 4 user sets incl. users without a usable password and entries sharing one value slice (testdirectory.NewUsers with WithMembersOf)) of length <= depth, breadth-first; every history is executed on a live testdirectory.Directory through a real go-ldap client, every step's result code is compared with a reference store and after the last step every pool DN is searched in both supported forms and every pool user is bound with its right password, a wrong one and the empty one. distinct_nontrivial = distinct (operation kinds, outcome) classes"
+				r.Cov["rule"] = "state = operation history (Add / Modify with one or two changes / Delete / Bind / SetUsers / SetGroups / SetControls / SetAllowAnonymousBind over a pool of 6 user DNs incl. a case variant, a non-ASCII one and one with an RFC 4514 hex escape, 2 group DNs, 4 user sets incl. users without a usable password and entries sharing one value slice (testdirectory.NewUsers with WithMembersOf)) of length <= depth, breadth-first; every history is executed on a live testdirectory.Directory through a real go-ldap client, every step's result code is compared with a reference store and after the last step every pool DN is searched in both supported forms and every pool user is bound with its right password, a wrong one and the empty one. distinct_nontrivial = distinct (operation kinds, outcome) classes"
 				r.Cov["samples"] = m.Samp
 				r.Cov["per_family"] = m.Counts
 				r.Cov["depth_completed"] = m.Counts["depth_completed_min"]
@@ -497,7 +497,16 @@ func names(m map[string][]string) []string {
 	return o
 }
 
-var poolUsers = []string{udn("alice"), udn("bob"), udn("eve"), udn("Alice"), udn("zo\u00eb")}
+var poolUsers = []string{udn("alice"), udn("bob"), udn("eve"), udn("Alice"), udn("zo\u00eb"), udn(`doe\2Cjane`)}
+
+// rdnFilter is the search filter that selects the entry by its RDN: the value escaped as RFC 4515 asks.
+func rdnFilter(dn string) string {
+	rdn := short(dn)
+	if i := strings.IndexByte(rdn, '='); i > 0 {
+		return "(" + rdn[:i+1] + ldap.EscapeFilter(rdn[i+1:]) + ")"
+	}
+	return "(" + rdn + ")"
+}
 var poolGroups = []string{gdn("admin"), gdn("dev")}
 
 // probe compares everything observable with the reference store. Returns findings as (prop, key, detail).
@@ -549,7 +558,7 @@ func (e *dirEnv) probe(c *Ctx, s *refStore) [][3]string {
 		if i := s.findUser(dn); i >= 0 {
 			want = s.Users[i]
 		}
-		ents, code := search(userBase, "("+short(dn)+")", ldap.ScopeWholeSubtree)
+		ents, code := search(userBase, rdnFilter(dn), ldap.ScopeWholeSubtree)
 		check("user base + filter", dn, want, ents, code)
 		ents, code = search(dn, "(objectClass=*)", ldap.ScopeBaseObject)
 		check("base = DN", dn, want, ents, code)
@@ -559,7 +568,7 @@ func (e *dirEnv) probe(c *Ctx, s *refStore) [][3]string {
 		if i := s.findGroup(dn); i >= 0 {
 			want = s.Groups[i]
 		}
-		ents, code := search(groupBase, "("+short(dn)+")", ldap.ScopeWholeSubtree)
+		ents, code := search(groupBase, rdnFilter(dn), ldap.ScopeWholeSubtree)
 		check("group base + filter", dn, want, ents, code)
 	}
 	// binds
